@@ -6,16 +6,16 @@ def run_case(case, props):
     kind = case.get("kind")
     if kind == "sbr":
         from props import c15
-        return c15.Run(case, props).run()
+        return archlib.guarded(c15.Run(case, props), props)
     if kind == "prox":
         from props import c14
-        return c14.Run(case, props).run()
+        return archlib.guarded(c14.Run(case, props), props)
     return archlib.run_case(case, props)
 
 
 def gen_sliding(rng):
     from props import c15
-    return c15.gen_case(rng)
+    return c15.gen_case(rng, micro=0.4)
 
 
 def gen_prox(lc=None):
